@@ -36,14 +36,48 @@ def run(ctx):
 
 
 # --------------------------------------------------------------------------- R1
+def _is_csv_reader(ctx, f, n):
+    if not isinstance(n, ast.Call) or not isinstance(n.func, (ast.Name, ast.Attribute)):
+        return False
+    r = ctx.prog.resolve_expr(f.module, n.func, None)
+    return bool(r and r[0] == 'external' and r[1] == 'csv.reader')
+
+
+def reader_of_entry(ctx, entry):
+    """The csv.reader call that produces the rows handed to self.run(...) by an import entry point, found through at
+    most one private helper: -> (function containing the call, call node, stream expression in the entry's terms) or None."""
+    env = G.single_assignments(entry.node)
+    runs = [c for c in walk_local(entry.node) if isinstance(c, ast.Call) and src(c.func) == 'self.run' and c.args]
+    for rc in runs:
+        origin = G.substitute(rc.args[0], env)
+        if _is_csv_reader(ctx, entry, origin):
+            stream = origin.args[0] if origin.args else None
+            # find the original call node (for the line number)
+            orig = [c for c in walk_local(entry.node) if _is_csv_reader(ctx, entry, c)]
+            return entry, (orig[0] if orig else origin), stream, origin
+        if isinstance(origin, ast.Call) and isinstance(origin.func, ast.Attribute) and F.is_name(origin.func.value, 'self') and entry.cls:
+            h = ctx.prog.find_method(entry.cls, origin.func.attr)
+            if h is None:
+                continue
+            henv = G.single_assignments(h.node)
+            for ret in [n for n in walk_local(h.node) if isinstance(n, ast.Return) and n.value is not None]:
+                ro = G.substitute(ret.value, henv)
+                if _is_csv_reader(ctx, h, ro):
+                    b = F.bind_args(origin, h, True)
+                    stream = G.substitute(ro.args[0], {k: v for k, v in b.items()}) if ro.args else None
+                    orig = [c for c in walk_local(h.node) if _is_csv_reader(ctx, h, c)]
+                    return h, (orig[0] if orig else ro), stream, ro
+    return None
+
+
 def csv_reader_calls(ctx):
+    """[(entry point, function containing the reader call, reader call, stream expression)] for import_file / import_string."""
     out = []
-    for f in ctx.prog.cls(IMP).methods.values():
-        for n in walk_local(f.node):
-            if isinstance(n, ast.Call):
-                r = ctx.prog.resolve_expr(f.module, n.func, None) if isinstance(n.func, (ast.Name, ast.Attribute)) else None
-                if r and r[0] == 'external' and r[1] == 'csv.reader':
-                    out.append((f, n))
+    for name in ('import_file', 'import_string'):
+        entry = ctx.prog.func(f'{IMP}.{name}')
+        r = reader_of_entry(ctx, entry)
+        if r is not None:
+            out.append((entry, r[0], r[3], r[2], r[1]))
     return out
 
 
@@ -60,30 +94,46 @@ def reader_dialect(ctx, f, call):
                 kw[k.arg] = ast.literal_eval(k.value)
             except Exception:
                 kw[k.arg] = f'<{src(k.value)}>'
+    if len(call.args) > 1:
+        a = call.args[1]
+        r = ctx.prog.resolve_expr(f.module, a, None) if isinstance(a, (ast.Name, ast.Attribute)) else None
+        kw['dialect'] = r[1] if r and r[0] == 'external' else f'<{src(a)}>'
     return kw
 
 
 def r1_reader(ctx):
     calls = csv_reader_calls(ctx)
-    ctx.expect_count('R1', 'csv.reader calls on the import path', len(calls), 2)
-    for f, call in calls:
-        at = f'{f.module.relpath}:{call.lineno}'
+    for name in ('import_file', 'import_string'):
+        if not any(e.name == name for e, *_ in calls):
+            entry = ctx.prog.func(f'{IMP}.{name}')
+            ctx.violation('R1', entry.loc, entry.qualname, 'rows-not-from-csv-reader',
+                          f'{name} does not hand the rows of a csv.reader (directly or through one helper) to run(): the cells are '
+                          f'not split by the line reader the property describes')
+    for entry, f, call, stream, orig in calls:
+        at = f'{f.module.relpath}:{orig.lineno}'
         kw = reader_dialect(ctx, f, call)
         if kw is None:
             raise AnalysisError(f'{at}: csv.reader called with **kwargs')
-        ctx.check(kw.get('delimiter') == '\t', 'R1', at, f.qualname, 'reader-delimiter', 'cells are separated by TAB only',
-                  f'delimiter is {kw.get("delimiter")!r}')
+        who = entry.name
+        d = kw.get('dialect')
+        if d is not None:
+            ctx.violation('R1', at, entry.qualname, 'reader-interprets-quotes',
+                          f'{who}: csv.reader is given the dialect {d}; every predefined csv dialect interprets the double quote '
+                          f'(a cell starting with a quote swallows the following tabs and line ends, `"x"` loses its quotes)')
+            continue
+        ctx.check(kw.get('delimiter') == '\t', 'R1', at, entry.qualname, 'reader-delimiter', f'{who}: cells are separated by TAB only',
+                  f'{who}: delimiter is {kw.get("delimiter")!r}')
         literal = kw.get('quoting') == 'csv.QUOTE_NONE' or ('quotechar' in kw and kw['quotechar'] is None)
-        ctx.check(literal, 'R1', at, f.qualname, 'reader-interprets-quotes',
-                  'quoting is disabled: a double quote is ordinary cell text',
-                  'csv.reader is used with its default dialect (quotechar \'"\', QUOTE_MINIMAL): a cell that starts with a double '
+        ctx.check(literal, 'R1', at, entry.qualname, 'reader-interprets-quotes',
+                  f'{who}: quoting is disabled: a double quote is ordinary cell text',
+                  f'{who}: csv.reader is used with its default dialect (quotechar \'"\', QUOTE_MINIMAL): a cell that starts with a double '
                   'quote swallows the following tabs and line ends up to the next quote, and `"la"` loses its quotes')
         extra = set(kw) - {'delimiter', 'quoting', 'quotechar'}
         bad = {k: kw[k] for k in extra if not (k == 'escapechar' and kw[k] is None) and not (k == 'skipinitialspace' and kw[k] is False)
                and not (k == 'strict' and kw[k] in (True, False)) and not (k == 'doublequote' and literal)
                and not (k == 'lineterminator')}
-        ctx.check(not bad, 'R1', at, f.qualname, 'reader-extra-dialect', 'no other dialect option alters the cell text',
-                  f'dialect options {bad} alter how cells are read')
+        ctx.check(not bad, 'R1', at, entry.qualname, 'reader-extra-dialect', f'{who}: no other dialect option alters the cell text',
+                  f'{who}: dialect options {bad} alter how cells are read')
 
 
 # --------------------------------------------------------------------------- R2
